@@ -40,6 +40,11 @@ claim('C08', 'bfs-depth2',
       'Full product of 16 request-validity classes (valid x4; failing at each validation step) x 14 SP ACS metadata shapes x 6 requested bindings x 8 storage answers (persist ok / error / empty id / context-deadline / context-canceled; SP-lookup errors), every case executed twice against the same provider; thorough adds a ResponseWriter failing at write 1..3. The oracle is the outcome dichotomy of the statement, evaluated on the decoded reply (x/net/html, raw Location, xt) and the strict storage call log.',
       'The second request of each history is identical to the first; richer histories are explored by C15/C01.', '§5 C08')
 
+claim('C13', 'devx+bfs',
+      'deviation-bounded exhaustive enumeration of logout requests plus exhaustive event histories (depth 2-3) on one real provider',
+      'Every assignment of 15 logout-request / SP-metadata dimensions (Issuer variants, ID, IssueInstant and NotOnOrAfter offsets incl. exactly now and now+1us with a pinned clock, lexical forms, NameID/SessionIndex, transports incl. Redirect with and without SAMLEncoding, undecodable payloads, 7 SingleLogoutService list shapes, host-derived issuer) with <= 3 (quick) / <= 4 (thorough) deviations, each on a fresh provider; plus every history of 2 (quick) / up to 3 (thorough) requests over a 16-request alphabet on one provider with every reply judged (catches state carried between requests; sync.Pool is made a deterministic LIFO by the overlay). Replies are decoded by x/net/html and the harness XML tree, never by the repository decoders.',
+      'RelayState values with metacharacters are covered by C17/C18, not here.', '§5 C13')
+
 NOT_YET = {i: 'check not built yet in this revision (planned: see DESIGN.md §5 %s); not claimed until its machinery exists' % i for i in ids}
 
 def main():
